@@ -14,6 +14,11 @@ type nat =
 let fst = function
 | (x, _) -> x
 
+(** val snd : ('a1 * 'a2) -> 'a2 **)
+
+let snd = function
+| (_, y) -> y
+
 (** val length : 'a1 list -> nat **)
 
 let rec length = function
@@ -48,37 +53,11 @@ module Coq__1 = struct
 end
 include Coq__1
 
-(** val sub : nat -> nat -> nat **)
+(** val tl : 'a1 list -> 'a1 list **)
 
-let rec sub n0 m =
-  match n0 with
-  | O -> n0
-  | S k -> (match m with
-            | O -> n0
-            | S l -> sub k l)
-
-module Nat =
- struct
-  (** val eqb : nat -> nat -> bool **)
-
-  let rec eqb n0 m =
-    match n0 with
-    | O -> (match m with
-            | O -> true
-            | S _ -> false)
-    | S n' -> (match m with
-               | O -> false
-               | S m' -> eqb n' m')
-
-  (** val leb : nat -> nat -> bool **)
-
-  let rec leb n0 m =
-    match n0 with
-    | O -> true
-    | S n' -> (match m with
-               | O -> false
-               | S m' -> leb n' m')
- end
+let tl = function
+| [] -> []
+| _ :: m -> m
 
 (** val nth : nat -> 'a1 list -> 'a1 -> 'a1 **)
 
@@ -91,11 +70,19 @@ let rec nth n0 l default =
             | [] -> default
             | _ :: t -> nth m t default)
 
-(** val rev : 'a1 list -> 'a1 list **)
+(** val removelast : 'a1 list -> 'a1 list **)
 
-let rec rev = function
+let rec removelast = function
 | [] -> []
-| x :: l' -> app (rev l') (x :: [])
+| a :: l0 -> (match l0 with
+              | [] -> []
+              | _ :: _ -> a :: (removelast l0))
+
+(** val concat : 'a1 list list -> 'a1 list **)
+
+let rec concat = function
+| [] -> []
+| x :: l0 -> app x (concat l0)
 
 (** val map : ('a1 -> 'a2) -> 'a1 list -> 'a2 list **)
 
@@ -103,17 +90,30 @@ let rec map f = function
 | [] -> []
 | a :: t -> (f a) :: (map f t)
 
+(** val fold_left : ('a1 -> 'a2 -> 'a1) -> 'a2 list -> 'a1 -> 'a1 **)
+
+let rec fold_left f l a0 =
+  match l with
+  | [] -> a0
+  | b :: t -> fold_left f t (f a0 b)
+
 (** val fold_right : ('a2 -> 'a1 -> 'a1) -> 'a1 -> 'a2 list -> 'a1 **)
 
 let rec fold_right f a0 = function
 | [] -> a0
 | b :: t -> f b (fold_right f a0 t)
 
-(** val existsb : ('a1 -> bool) -> 'a1 list -> bool **)
+(** val forallb : ('a1 -> bool) -> 'a1 list -> bool **)
 
-let rec existsb f = function
-| [] -> false
-| a :: l0 -> (||) (f a) (existsb f l0)
+let rec forallb f = function
+| [] -> true
+| a :: l0 -> (&&) (f a) (forallb f l0)
+
+(** val filter : ('a1 -> bool) -> 'a1 list -> 'a1 list **)
+
+let rec filter f = function
+| [] -> []
+| x :: l0 -> if f x then x :: (filter f l0) else filter f l0
 
 (** val firstn : nat -> 'a1 list -> 'a1 list **)
 
@@ -124,17 +124,14 @@ let rec firstn n0 l =
              | [] -> []
              | a :: l0 -> a :: (firstn n1 l0))
 
-(** val seq : nat -> nat -> nat list **)
+(** val skipn : nat -> 'a1 list -> 'a1 list **)
 
-let rec seq start = function
-| O -> []
-| S len0 -> start :: (seq (S start) len0)
-
-(** val repeat : 'a1 -> nat -> 'a1 list **)
-
-let rec repeat x = function
-| O -> []
-| S k -> x :: (repeat x k)
+let rec skipn n0 l =
+  match n0 with
+  | O -> l
+  | S n1 -> (match l with
+             | [] -> []
+             | _ :: l0 -> skipn n1 l0)
 
 type positive =
 | XI of positive
@@ -344,6 +341,26 @@ module Pos =
              | XO _ -> Npos XH
              | _ -> N0)
 
+  (** val coq_lxor : positive -> positive -> n **)
+
+  let rec coq_lxor p q =
+    match p with
+    | XI p0 ->
+      (match q with
+       | XI q0 -> coq_Ndouble (coq_lxor p0 q0)
+       | XO q0 -> coq_Nsucc_double (coq_lxor p0 q0)
+       | XH -> Npos (XO p0))
+    | XO p0 ->
+      (match q with
+       | XI q0 -> coq_Nsucc_double (coq_lxor p0 q0)
+       | XO q0 -> coq_Ndouble (coq_lxor p0 q0)
+       | XH -> Npos (XI p0))
+    | XH ->
+      (match q with
+       | XI q0 -> Npos (XO q0)
+       | XO q0 -> Npos (XI q0)
+       | XH -> N0)
+
   (** val iter_op : ('a1 -> 'a1 -> 'a1) -> positive -> 'a1 -> 'a1 **)
 
   let rec iter_op op p a =
@@ -399,6 +416,15 @@ module N =
                  | N0 -> n0
                  | Npos q -> Npos (Pos.coq_lor p q))
 
+  (** val coq_land : n -> n -> n **)
+
+  let coq_land n0 m =
+    match n0 with
+    | N0 -> N0
+    | Npos p -> (match m with
+                 | N0 -> N0
+                 | Npos q -> Pos.coq_land p q)
+
   (** val ldiff : n -> n -> n **)
 
   let ldiff n0 m =
@@ -407,6 +433,15 @@ module N =
     | Npos p -> (match m with
                  | N0 -> n0
                  | Npos q -> Pos.ldiff p q)
+
+  (** val coq_lxor : n -> n -> n **)
+
+  let coq_lxor n0 m =
+    match n0 with
+    | N0 -> m
+    | Npos p -> (match m with
+                 | N0 -> n0
+                 | Npos q -> Pos.coq_lxor p q)
 
   (** val to_nat : n -> nat **)
 
@@ -508,18 +543,6 @@ module Z =
        | Zpos y' -> Zneg (Pos.mul x' y')
        | Zneg y' -> Zpos (Pos.mul x' y'))
 
-  (** val pow_pos : z -> positive -> z **)
-
-  let pow_pos z0 =
-    Pos.iter (mul z0) (Zpos XH)
-
-  (** val pow : z -> z -> z **)
-
-  let pow x = function
-  | Z0 -> Zpos XH
-  | Zpos p -> pow_pos x p
-  | Zneg _ -> Z0
-
   (** val compare : z -> z -> comparison **)
 
   let compare x y =
@@ -550,20 +573,6 @@ module Z =
     | Lt -> true
     | _ -> false
 
-  (** val geb : z -> z -> bool **)
-
-  let geb x y =
-    match compare x y with
-    | Lt -> false
-    | _ -> true
-
-  (** val gtb : z -> z -> bool **)
-
-  let gtb x y =
-    match compare x y with
-    | Gt -> true
-    | _ -> false
-
   (** val eqb : z -> z -> bool **)
 
   let eqb x y =
@@ -577,6 +586,13 @@ module Z =
     | Zneg p -> (match y with
                  | Zneg q -> Pos.eqb p q
                  | _ -> false)
+
+  (** val min : z -> z -> z **)
+
+  let min n0 m =
+    match compare n0 m with
+    | Gt -> m
+    | _ -> n0
 
   (** val to_nat : z -> nat **)
 
@@ -649,11 +665,6 @@ module Z =
   let div a b =
     let (q, _) = div_eucl a b in q
 
-  (** val modulo : z -> z -> z **)
-
-  let modulo a b =
-    let (_, r) = div_eucl a b in r
-
   (** val div2 : z -> z **)
 
   let div2 = function
@@ -675,6 +686,23 @@ module Z =
   let shiftr a n0 =
     shiftl a (opp n0)
 
+  (** val coq_lor : z -> z -> z **)
+
+  let coq_lor a b =
+    match a with
+    | Z0 -> b
+    | Zpos a0 ->
+      (match b with
+       | Z0 -> a
+       | Zpos b0 -> Zpos (Pos.coq_lor a0 b0)
+       | Zneg b0 -> Zneg (N.succ_pos (N.ldiff (Pos.pred_N b0) (Npos a0))))
+    | Zneg a0 ->
+      (match b with
+       | Z0 -> a
+       | Zpos b0 -> Zneg (N.succ_pos (N.ldiff (Pos.pred_N a0) (Npos b0)))
+       | Zneg b0 ->
+         Zneg (N.succ_pos (N.coq_land (Pos.pred_N a0) (Pos.pred_N b0))))
+
   (** val coq_land : z -> z -> z **)
 
   let coq_land a b =
@@ -691,656 +719,638 @@ module Z =
        | Zpos b0 -> of_N (N.ldiff (Npos b0) (Pos.pred_N a0))
        | Zneg b0 ->
          Zneg (N.succ_pos (N.coq_lor (Pos.pred_N a0) (Pos.pred_N b0))))
+
+  (** val coq_lxor : z -> z -> z **)
+
+  let coq_lxor a b =
+    match a with
+    | Z0 -> b
+    | Zpos a0 ->
+      (match b with
+       | Z0 -> a
+       | Zpos b0 -> of_N (Pos.coq_lxor a0 b0)
+       | Zneg b0 -> Zneg (N.succ_pos (N.coq_lxor (Npos a0) (Pos.pred_N b0))))
+    | Zneg a0 ->
+      (match b with
+       | Z0 -> a
+       | Zpos b0 -> Zneg (N.succ_pos (N.coq_lxor (Pos.pred_N a0) (Npos b0)))
+       | Zneg b0 -> of_N (N.coq_lxor (Pos.pred_N a0) (Pos.pred_N b0)))
  end
 
-(** val wrap32 : z -> z **)
+(** val kInfiniteEnd : z **)
 
-let wrap32 z0 =
-  Z.sub
-    (Z.modulo
-      (Z.add z0 (Zpos (XO (XO (XO (XO (XO (XO (XO (XO (XO (XO (XO (XO (XO (XO
-        (XO (XO (XO (XO (XO (XO (XO (XO (XO (XO (XO (XO (XO (XO (XO (XO (XO
-        XH))))))))))))))))))))))))))))))))) (Zpos (XO (XO (XO (XO (XO (XO (XO
-      (XO (XO (XO (XO (XO (XO (XO (XO (XO (XO (XO (XO (XO (XO (XO (XO (XO (XO
-      (XO (XO (XO (XO (XO (XO (XO XH)))))))))))))))))))))))))))))))))) (Zpos
-    (XO (XO (XO (XO (XO (XO (XO (XO (XO (XO (XO (XO (XO (XO (XO (XO (XO (XO
-    (XO (XO (XO (XO (XO (XO (XO (XO (XO (XO (XO (XO (XO
-    XH))))))))))))))))))))))))))))))))
+let kInfiniteEnd =
+  Zpos (XI (XI (XI (XI (XI (XI (XI (XI (XI (XI (XI (XI (XI (XI (XI (XI (XI
+    (XI (XI (XI (XI (XI (XI (XI (XI (XI (XI (XI (XI (XI (XI
+    XH)))))))))))))))))))))))))))))))
 
-(** val tABLE : z list **)
+(** val ulong_max : z **)
 
-let tABLE =
-  (Zpos (XI (XO (XO (XO (XO (XO XH))))))) :: ((Zpos (XO (XI (XO (XO (XO (XO
-    XH))))))) :: ((Zpos (XI (XI (XO (XO (XO (XO XH))))))) :: ((Zpos (XO (XO
-    (XI (XO (XO (XO XH))))))) :: ((Zpos (XI (XO (XI (XO (XO (XO
-    XH))))))) :: ((Zpos (XO (XI (XI (XO (XO (XO XH))))))) :: ((Zpos (XI (XI
-    (XI (XO (XO (XO XH))))))) :: ((Zpos (XO (XO (XO (XI (XO (XO
-    XH))))))) :: ((Zpos (XI (XO (XO (XI (XO (XO XH))))))) :: ((Zpos (XO (XI
-    (XO (XI (XO (XO XH))))))) :: ((Zpos (XI (XI (XO (XI (XO (XO
-    XH))))))) :: ((Zpos (XO (XO (XI (XI (XO (XO XH))))))) :: ((Zpos (XI (XO
-    (XI (XI (XO (XO XH))))))) :: ((Zpos (XO (XI (XI (XI (XO (XO
-    XH))))))) :: ((Zpos (XI (XI (XI (XI (XO (XO XH))))))) :: ((Zpos (XO (XO
-    (XO (XO (XI (XO XH))))))) :: ((Zpos (XI (XO (XO (XO (XI (XO
-    XH))))))) :: ((Zpos (XO (XI (XO (XO (XI (XO XH))))))) :: ((Zpos (XI (XI
-    (XO (XO (XI (XO XH))))))) :: ((Zpos (XO (XO (XI (XO (XI (XO
-    XH))))))) :: ((Zpos (XI (XO (XI (XO (XI (XO XH))))))) :: ((Zpos (XO (XI
-    (XI (XO (XI (XO XH))))))) :: ((Zpos (XI (XI (XI (XO (XI (XO
-    XH))))))) :: ((Zpos (XO (XO (XO (XI (XI (XO XH))))))) :: ((Zpos (XI (XO
-    (XO (XI (XI (XO XH))))))) :: ((Zpos (XO (XI (XO (XI (XI (XO
-    XH))))))) :: ((Zpos (XI (XO (XO (XO (XO (XI XH))))))) :: ((Zpos (XO (XI
-    (XO (XO (XO (XI XH))))))) :: ((Zpos (XI (XI (XO (XO (XO (XI
-    XH))))))) :: ((Zpos (XO (XO (XI (XO (XO (XI XH))))))) :: ((Zpos (XI (XO
-    (XI (XO (XO (XI XH))))))) :: ((Zpos (XO (XI (XI (XO (XO (XI
-    XH))))))) :: ((Zpos (XI (XI (XI (XO (XO (XI XH))))))) :: ((Zpos (XO (XO
-    (XO (XI (XO (XI XH))))))) :: ((Zpos (XI (XO (XO (XI (XO (XI
-    XH))))))) :: ((Zpos (XO (XI (XO (XI (XO (XI XH))))))) :: ((Zpos (XI (XI
-    (XO (XI (XO (XI XH))))))) :: ((Zpos (XO (XO (XI (XI (XO (XI
-    XH))))))) :: ((Zpos (XI (XO (XI (XI (XO (XI XH))))))) :: ((Zpos (XO (XI
-    (XI (XI (XO (XI XH))))))) :: ((Zpos (XI (XI (XI (XI (XO (XI
-    XH))))))) :: ((Zpos (XO (XO (XO (XO (XI (XI XH))))))) :: ((Zpos (XI (XO
-    (XO (XO (XI (XI XH))))))) :: ((Zpos (XO (XI (XO (XO (XI (XI
-    XH))))))) :: ((Zpos (XI (XI (XO (XO (XI (XI XH))))))) :: ((Zpos (XO (XO
-    (XI (XO (XI (XI XH))))))) :: ((Zpos (XI (XO (XI (XO (XI (XI
-    XH))))))) :: ((Zpos (XO (XI (XI (XO (XI (XI XH))))))) :: ((Zpos (XI (XI
-    (XI (XO (XI (XI XH))))))) :: ((Zpos (XO (XO (XO (XI (XI (XI
-    XH))))))) :: ((Zpos (XI (XO (XO (XI (XI (XI XH))))))) :: ((Zpos (XO (XI
-    (XO (XI (XI (XI XH))))))) :: ((Zpos (XO (XO (XO (XO (XI
-    XH)))))) :: ((Zpos (XI (XO (XO (XO (XI XH)))))) :: ((Zpos (XO (XI (XO (XO
-    (XI XH)))))) :: ((Zpos (XI (XI (XO (XO (XI XH)))))) :: ((Zpos (XO (XO (XI
-    (XO (XI XH)))))) :: ((Zpos (XI (XO (XI (XO (XI XH)))))) :: ((Zpos (XO (XI
-    (XI (XO (XI XH)))))) :: ((Zpos (XI (XI (XI (XO (XI XH)))))) :: ((Zpos (XO
-    (XO (XO (XI (XI XH)))))) :: ((Zpos (XI (XO (XO (XI (XI XH)))))) :: ((Zpos
-    (XI (XI (XO (XI (XO XH)))))) :: ((Zpos (XI (XI (XI (XI (XO
-    XH)))))) :: [])))))))))))))))))))))))))))))))))))))))))))))))))))))))))))))))
+let ulong_max =
+  Zpos (XI (XI (XI (XI (XI (XI (XI (XI (XI (XI (XI (XI (XI (XI (XI (XI (XI
+    (XI (XI (XI (XI (XI (XI (XI (XI (XI (XI (XI (XI (XI (XI (XI (XI (XI (XI
+    (XI (XI (XI (XI (XI (XI (XI (XI (XI (XI (XI (XI (XI (XI (XI (XI (XI (XI
+    (XI (XI (XI (XI (XI (XI (XI (XI (XI (XI
+    XH)))))))))))))))))))))))))))))))))))))))))))))))))))))))))))))))
 
-(** val iNV_TABLE : z list **)
+(** val dedupe_default_fields : z list **)
 
-let iNV_TABLE =
-  (Zneg XH) :: ((Zneg XH) :: ((Zneg XH) :: ((Zneg XH) :: ((Zneg XH) :: ((Zneg
-    XH) :: ((Zneg XH) :: ((Zneg XH) :: ((Zneg XH) :: ((Zneg XH) :: ((Zneg
-    XH) :: ((Zneg XH) :: ((Zneg XH) :: ((Zneg XH) :: ((Zneg XH) :: ((Zneg
-    XH) :: ((Zneg XH) :: ((Zneg XH) :: ((Zneg XH) :: ((Zneg XH) :: ((Zneg
-    XH) :: ((Zneg XH) :: ((Zneg XH) :: ((Zneg XH) :: ((Zneg XH) :: ((Zneg
-    XH) :: ((Zneg XH) :: ((Zneg XH) :: ((Zneg XH) :: ((Zneg XH) :: ((Zneg
-    XH) :: ((Zneg XH) :: ((Zneg XH) :: ((Zneg XH) :: ((Zneg XH) :: ((Zneg
-    XH) :: ((Zneg XH) :: ((Zneg XH) :: ((Zneg XH) :: ((Zneg XH) :: ((Zneg
-    XH) :: ((Zneg XH) :: ((Zneg XH) :: ((Zpos (XO (XI (XI (XI (XI
-    XH)))))) :: ((Zneg XH) :: ((Zneg XH) :: ((Zneg XH) :: ((Zpos (XI (XI (XI
-    (XI (XI XH)))))) :: ((Zpos (XO (XO (XI (XO (XI XH)))))) :: ((Zpos (XI (XO
-    (XI (XO (XI XH)))))) :: ((Zpos (XO (XI (XI (XO (XI XH)))))) :: ((Zpos (XI
-    (XI (XI (XO (XI XH)))))) :: ((Zpos (XO (XO (XO (XI (XI XH)))))) :: ((Zpos
-    (XI (XO (XO (XI (XI XH)))))) :: ((Zpos (XO (XI (XO (XI (XI
-    XH)))))) :: ((Zpos (XI (XI (XO (XI (XI XH)))))) :: ((Zpos (XO (XO (XI (XI
-    (XI XH)))))) :: ((Zpos (XI (XO (XI (XI (XI XH)))))) :: ((Zneg
-    XH) :: ((Zneg XH) :: ((Zneg XH) :: ((Zneg XH) :: ((Zneg XH) :: ((Zneg
-    XH) :: ((Zneg XH) :: (Z0 :: ((Zpos XH) :: ((Zpos (XO XH)) :: ((Zpos (XI
-    XH)) :: ((Zpos (XO (XO XH))) :: ((Zpos (XI (XO XH))) :: ((Zpos (XO (XI
-    XH))) :: ((Zpos (XI (XI XH))) :: ((Zpos (XO (XO (XO XH)))) :: ((Zpos (XI
-    (XO (XO XH)))) :: ((Zpos (XO (XI (XO XH)))) :: ((Zpos (XI (XI (XO
-    XH)))) :: ((Zpos (XO (XO (XI XH)))) :: ((Zpos (XI (XO (XI
-    XH)))) :: ((Zpos (XO (XI (XI XH)))) :: ((Zpos (XI (XI (XI
-    XH)))) :: ((Zpos (XO (XO (XO (XO XH))))) :: ((Zpos (XI (XO (XO (XO
-    XH))))) :: ((Zpos (XO (XI (XO (XO XH))))) :: ((Zpos (XI (XI (XO (XO
-    XH))))) :: ((Zpos (XO (XO (XI (XO XH))))) :: ((Zpos (XI (XO (XI (XO
-    XH))))) :: ((Zpos (XO (XI (XI (XO XH))))) :: ((Zpos (XI (XI (XI (XO
-    XH))))) :: ((Zpos (XO (XO (XO (XI XH))))) :: ((Zpos (XI (XO (XO (XI
-    XH))))) :: ((Zneg XH) :: ((Zneg XH) :: ((Zneg XH) :: ((Zneg XH) :: ((Zneg
-    XH) :: ((Zneg XH) :: ((Zpos (XO (XI (XO (XI XH))))) :: ((Zpos (XI (XI (XO
-    (XI XH))))) :: ((Zpos (XO (XO (XI (XI XH))))) :: ((Zpos (XI (XO (XI (XI
-    XH))))) :: ((Zpos (XO (XI (XI (XI XH))))) :: ((Zpos (XI (XI (XI (XI
-    XH))))) :: ((Zpos (XO (XO (XO (XO (XO XH)))))) :: ((Zpos (XI (XO (XO (XO
-    (XO XH)))))) :: ((Zpos (XO (XI (XO (XO (XO XH)))))) :: ((Zpos (XI (XI (XO
-    (XO (XO XH)))))) :: ((Zpos (XO (XO (XI (XO (XO XH)))))) :: ((Zpos (XI (XO
-    (XI (XO (XO XH)))))) :: ((Zpos (XO (XI (XI (XO (XO XH)))))) :: ((Zpos (XI
-    (XI (XI (XO (XO XH)))))) :: ((Zpos (XO (XO (XO (XI (XO XH)))))) :: ((Zpos
-    (XI (XO (XO (XI (XO XH)))))) :: ((Zpos (XO (XI (XO (XI (XO
-    XH)))))) :: ((Zpos (XI (XI (XO (XI (XO XH)))))) :: ((Zpos (XO (XO (XI (XI
-    (XO XH)))))) :: ((Zpos (XI (XO (XI (XI (XO XH)))))) :: ((Zpos (XO (XI (XI
-    (XI (XO XH)))))) :: ((Zpos (XI (XI (XI (XI (XO XH)))))) :: ((Zpos (XO (XO
-    (XO (XO (XI XH)))))) :: ((Zpos (XI (XO (XO (XO (XI XH)))))) :: ((Zpos (XO
-    (XI (XO (XO (XI XH)))))) :: ((Zpos (XI (XI (XO (XO (XI XH)))))) :: ((Zneg
-    XH) :: ((Zneg XH) :: ((Zneg XH) :: ((Zneg XH) :: ((Zneg XH) :: ((Zneg
-    XH) :: ((Zneg XH) :: ((Zneg XH) :: ((Zneg XH) :: ((Zneg XH) :: ((Zneg
-    XH) :: ((Zneg XH) :: ((Zneg XH) :: ((Zneg XH) :: ((Zneg XH) :: ((Zneg
-    XH) :: ((Zneg XH) :: ((Zneg XH) :: ((Zneg XH) :: ((Zneg XH) :: ((Zneg
-    XH) :: ((Zneg XH) :: ((Zneg XH) :: ((Zneg XH) :: ((Zneg XH) :: ((Zneg
-    XH) :: ((Zneg XH) :: ((Zneg XH) :: ((Zneg XH) :: ((Zneg XH) :: ((Zneg
-    XH) :: ((Zneg XH) :: ((Zneg XH) :: ((Zneg XH) :: ((Zneg XH) :: ((Zneg
-    XH) :: ((Zneg XH) :: ((Zneg XH) :: ((Zneg XH) :: ((Zneg XH) :: ((Zneg
-    XH) :: ((Zneg XH) :: ((Zneg XH) :: ((Zneg XH) :: ((Zneg XH) :: ((Zneg
-    XH) :: ((Zneg XH) :: ((Zneg XH) :: ((Zneg XH) :: ((Zneg XH) :: ((Zneg
-    XH) :: ((Zneg XH) :: ((Zneg XH) :: ((Zneg XH) :: ((Zneg XH) :: ((Zneg
-    XH) :: ((Zneg XH) :: ((Zneg XH) :: ((Zneg XH) :: ((Zneg XH) :: ((Zneg
-    XH) :: ((Zneg XH) :: ((Zneg XH) :: ((Zneg XH) :: ((Zneg XH) :: ((Zneg
-    XH) :: ((Zneg XH) :: ((Zneg XH) :: ((Zneg XH) :: ((Zneg XH) :: ((Zneg
-    XH) :: ((Zneg XH) :: ((Zneg XH) :: ((Zneg XH) :: ((Zneg XH) :: ((Zneg
-    XH) :: ((Zneg XH) :: ((Zneg XH) :: ((Zneg XH) :: ((Zneg XH) :: ((Zneg
-    XH) :: ((Zneg XH) :: ((Zneg XH) :: ((Zneg XH) :: ((Zneg XH) :: ((Zneg
-    XH) :: ((Zneg XH) :: ((Zneg XH) :: ((Zneg XH) :: ((Zneg XH) :: ((Zneg
-    XH) :: ((Zneg XH) :: ((Zneg XH) :: ((Zneg XH) :: ((Zneg XH) :: ((Zneg
-    XH) :: ((Zneg XH) :: ((Zneg XH) :: ((Zneg XH) :: ((Zneg XH) :: ((Zneg
-    XH) :: ((Zneg XH) :: ((Zneg XH) :: ((Zneg XH) :: ((Zneg XH) :: ((Zneg
-    XH) :: ((Zneg XH) :: ((Zneg XH) :: ((Zneg XH) :: ((Zneg XH) :: ((Zneg
-    XH) :: ((Zneg XH) :: ((Zneg XH) :: ((Zneg XH) :: ((Zneg XH) :: ((Zneg
-    XH) :: ((Zneg XH) :: ((Zneg XH) :: ((Zneg XH) :: ((Zneg XH) :: ((Zneg
-    XH) :: ((Zneg XH) :: ((Zneg XH) :: ((Zneg XH) :: ((Zneg XH) :: ((Zneg
-    XH) :: ((Zneg XH) :: ((Zneg XH) :: ((Zneg XH) :: ((Zneg XH) :: ((Zneg
-    XH) :: ((Zneg XH) :: ((Zneg
-    XH) :: [])))))))))))))))))))))))))))))))))))))))))))))))))))))))))))))))))))))))))))))))))))))))))))))))))))))))))))))))))))))))))))))))))))))))))))))))))))))))))))))))))))))))))))))))))))))))))))))))))))))))))))))))))))))))))))))))))))))))))))))))))))))))))))))))
+let dedupe_default_fields =
+  (Zpos (XI (XO (XO (XO (XI XH)))))) :: ((Zpos (XI (XO (XI (XI (XO
+    XH)))))) :: [])
 
-(** val enc_val0 : z **)
+(** val dedupe_default_delim : z **)
 
-let enc_val0 =
+let dedupe_default_delim =
+  Zpos (XI (XO (XO XH)))
+
+(** val shard_default_fields : z list **)
+
+let shard_default_fields =
+  (Zpos (XI (XO (XO (XO (XI XH)))))) :: ((Zpos (XI (XO (XI (XI (XO
+    XH)))))) :: [])
+
+(** val shard_default_delim : z **)
+
+let shard_default_delim =
+  Zpos (XI (XO (XO XH)))
+
+(** val cache_default_key : z list **)
+
+let cache_default_key =
+  (Zpos (XI (XO (XI (XI (XO XH)))))) :: []
+
+(** val cache_default_separator : z **)
+
+let cache_default_separator =
+  Zpos (XI (XO (XO XH)))
+
+(** val murmur_m : z **)
+
+let murmur_m =
+  Zpos (XI (XO (XI (XO (XI (XO (XO (XI (XI (XO (XO (XI (XO (XI (XI (XI (XI
+    (XO (XO (XO (XI (XO (XI (XI (XI (XI (XO (XI (XI (XO (XI (XO (XI (XI (XO
+    (XO (XI (XO (XO (XI (XI (XI (XI (XO (XO (XI (XO (XI (XO (XO (XI (XO (XO
+    (XI (XO (XI (XO (XI (XI (XO (XO (XO (XI
+    XH)))))))))))))))))))))))))))))))))))))))))))))))))))))))))))))))
+
+(** val murmur_r : z **)
+
+let murmur_r =
+  Zpos (XI (XI (XI (XI (XO XH)))))
+
+(** val murmur_block : z **)
+
+let murmur_block =
+  Zpos (XO (XO (XO XH)))
+
+(** val murmur_tail_mask : z **)
+
+let murmur_tail_mask =
+  Zpos (XI (XI XH))
+
+(** val murmur_tail_cases : ((z * nat) * z) list **)
+
+let murmur_tail_cases =
+  (((Zpos (XI (XI XH))), (S (S (S (S (S (S O))))))), (Zpos (XO (XO (XO (XO
+    (XI XH))))))) :: ((((Zpos (XO (XI XH))), (S (S (S (S (S O)))))), (Zpos
+    (XO (XO (XO (XI (XO XH))))))) :: ((((Zpos (XI (XO XH))), (S (S (S (S
+    O))))), (Zpos (XO (XO (XO (XO (XO XH))))))) :: ((((Zpos (XO (XO XH))), (S
+    (S (S O)))), (Zpos (XO (XO (XO (XI XH)))))) :: ((((Zpos (XI XH)), (S (S
+    O))), (Zpos (XO (XO (XO (XO XH)))))) :: ((((Zpos (XO XH)), (S O)), (Zpos
+    (XO (XO (XO XH))))) :: ((((Zpos XH), O), Z0) :: []))))))
+
+(** val murmur_tail_mul_case : z **)
+
+let murmur_tail_mul_case =
+  Zpos XH
+
+(** val shard_seed : z **)
+
+let shard_seed =
+  Zpos (XI (XO (XO (XI (XO (XO (XI (XO (XO (XI (XI (XO (XI (XI (XO (XI (XI
+    (XO (XI (XO (XI (XI (XI (XI (XO (XO (XI (XI (XO (XO (XI (XI (XO (XO (XI
+    (XO (XO (XO (XO (XI (XI (XI (XO (XI (XO
+    XH)))))))))))))))))))))))))))))))))))))))))))))
+
+(** val dedupe_line_seed : z **)
+
+let dedupe_line_seed =
+  Zpos XH
+
+(** val dedupe_field_seed : z **)
+
+let dedupe_field_seed =
+  Zpos XH
+
+(** val cache_seed : z **)
+
+let cache_seed =
   Z0
 
-(** val enc_valb0 : z **)
+(** val mask64 : z **)
 
-let enc_valb0 =
-  Zneg (XO (XI XH))
+let mask64 =
+  Zpos (XI (XI (XI (XI (XI (XI (XI (XI (XI (XI (XI (XI (XI (XI (XI (XI (XI
+    (XI (XI (XI (XI (XI (XI (XI (XI (XI (XI (XI (XI (XI (XI (XI (XI (XI (XI
+    (XI (XI (XI (XI (XI (XI (XI (XI (XI (XI (XI (XI (XI (XI (XI (XI (XI (XI
+    (XI (XI (XI (XI (XI (XI (XI (XI (XI (XI
+    XH)))))))))))))))))))))))))))))))))))))))))))))))))))))))))))))))
 
-(** val enc_shift : z **)
+(** val w64 : z -> z **)
 
-let enc_shift =
-  Zpos (XO (XO (XO XH)))
+let w64 x =
+  Z.coq_land x mask64
 
-(** val enc_valb_add : z **)
+(** val mul64 : z -> z -> z **)
 
-let enc_valb_add =
-  Zpos (XO (XO (XO XH)))
+let mul64 a b =
+  w64 (Z.mul a b)
 
-(** val enc_loop_bound : z **)
+(** val word_bytes : nat **)
 
-let enc_loop_bound =
-  Z0
-
-(** val enc_mask : z **)
-
-let enc_mask =
-  Zpos (XI (XI (XI (XI (XI XH)))))
-
-(** val enc_valb_sub : z **)
-
-let enc_valb_sub =
-  Zpos (XO (XI XH))
-
-(** val enc_tail_bound : z **)
-
-let enc_tail_bound =
-  Zneg (XO (XI XH))
-
-(** val enc_tail_shl : z **)
-
-let enc_tail_shl =
-  Zpos (XO (XO (XO XH)))
-
-(** val enc_tail_add : z **)
-
-let enc_tail_add =
-  Zpos (XO (XO (XO XH)))
-
-(** val enc_tail_mask : z **)
-
-let enc_tail_mask =
-  Zpos (XI (XI (XI (XI (XI XH)))))
-
-(** val enc_pad_mod : z **)
-
-let enc_pad_mod =
-  Zpos (XO (XO XH))
-
-(** val pad_char : z **)
-
-let pad_char =
-  Zpos (XI (XO (XI (XI (XI XH)))))
-
-(** val dec_val0 : z **)
-
-let dec_val0 =
-  Z0
-
-(** val dec_valb0 : z **)
-
-let dec_valb0 =
-  Zneg (XO (XO (XO XH)))
-
-(** val dec_pad_char : z **)
-
-let dec_pad_char =
-  Zpos (XI (XO (XI (XI (XI XH)))))
-
-(** val dec_reject : z **)
-
-let dec_reject =
-  Zneg XH
-
-(** val dec_shift : z **)
-
-let dec_shift =
-  Zpos (XO (XI XH))
-
-(** val dec_valb_add : z **)
-
-let dec_valb_add =
-  Zpos (XO (XI XH))
-
-(** val dec_out_bound : z **)
-
-let dec_out_bound =
-  Z0
-
-(** val dec_mask : z **)
-
-let dec_mask =
-  Zpos (XI (XI (XI (XI (XI (XI (XI XH)))))))
-
-(** val dec_valb_sub : z **)
-
-let dec_valb_sub =
-  Zpos (XO (XO (XO XH)))
-
-(** val tbl : z -> z **)
-
-let tbl i =
-  nth (Z.to_nat i) tABLE Z0
-
-(** val inv : z -> z **)
-
-let inv c =
-  nth (Z.to_nat c) iNV_TABLE Z0
-
-(** val sel : z -> z -> z -> z **)
-
-let sel val0 valb mask =
-  Z.coq_land (Z.shiftr val0 valb) mask
-
-(** val enc_drain : nat -> z -> z -> (z list * z) option **)
-
-let rec enc_drain fuel val0 valb =
-  if Z.geb valb enc_loop_bound
-  then (match fuel with
-        | O -> None
-        | S f ->
-          (match enc_drain f val0 (Z.sub valb enc_valb_sub) with
-           | Some p ->
-             let (o, vb) = p in
-             Some (((tbl (sel val0 valb enc_mask)) :: o), vb)
-           | None -> None))
-  else Some ([], valb)
-
-(** val drain_fuel : nat **)
-
-let drain_fuel =
+let word_bytes =
   S (S (S (S (S (S (S (S O)))))))
 
-(** val enc_bytes : z list -> z -> z -> ((z list * z) * z) option **)
+(** val load_le : nat -> z list -> z **)
 
-let rec enc_bytes bs val0 valb =
-  match bs with
-  | [] -> Some (([], val0), valb)
-  | c :: r ->
-    let val' = wrap32 (Z.add (Z.mul val0 (Z.pow (Zpos (XO XH)) enc_shift)) c)
-    in
-    (match enc_drain drain_fuel val' (Z.add valb enc_valb_add) with
-     | Some p ->
-       let (o, vb) = p in
-       (match enc_bytes r val' vb with
-        | Some p0 ->
-          let (p1, b) = p0 in let (o2, v) = p1 in Some (((app o o2), v), b)
-        | None -> None)
-     | None -> None)
+let rec load_le n0 mem =
+  match n0 with
+  | O -> Z0
+  | S n' ->
+    (match mem with
+     | [] -> Z0
+     | b :: r ->
+       Z.coq_lor b (Z.shiftl (load_le n' r) (Zpos (XO (XO (XO XH))))))
 
-(** val enc_pad : nat -> z list **)
+(** val mix_k : z -> z **)
 
-let enc_pad n0 =
-  repeat pad_char
-    (Z.to_nat
-      (Z.modulo (Z.sub enc_pad_mod (Z.modulo (Z.of_nat n0) enc_pad_mod))
-        enc_pad_mod))
+let mix_k k =
+  let k1 = mul64 k murmur_m in
+  let k2 = Z.coq_lxor k1 (Z.shiftr k1 murmur_r) in mul64 k2 murmur_m
 
-(** val base64_encode : z list -> z list option **)
+(** val mm_body : nat -> z list -> z -> z * z list **)
 
-let base64_encode bs =
-  match enc_bytes bs enc_val0 enc_valb0 with
-  | Some p ->
-    let (p0, valb) = p in
-    let (o, val0) = p0 in
-    let o' =
-      if Z.gtb valb enc_tail_bound
-      then app o
-             ((tbl
-                (sel
-                  (wrap32 (Z.mul val0 (Z.pow (Zpos (XO XH)) enc_tail_shl)))
-                  (Z.add valb enc_tail_add) enc_tail_mask)) :: [])
-      else o
-    in
-    Some (app o' (enc_pad (length o')))
-  | None -> None
+let rec mm_body nblocks data h =
+  match nblocks with
+  | O -> (h, data)
+  | S n0 ->
+    mm_body n0 (skipn word_bytes data)
+      (mul64 (Z.coq_lxor h (mix_k (load_le word_bytes data))) murmur_m)
 
-type dres =
-| DOk of z list
-| DBadChar of z
-| DLengthError
+(** val tail_case : z -> z list -> z -> ((z * nat) * z) -> z **)
 
-(** val count_padding_aux : z list -> nat * bool **)
+let tail_case t data2 h = function
+| (p, sh) ->
+  let (label, idx) = p in
+  if Z.leb label t
+  then let h1 = Z.coq_lxor h (w64 (Z.shiftl (nth idx data2 Z0) sh)) in
+       if Z.eqb label murmur_tail_mul_case then mul64 h1 murmur_m else h1
+  else h
 
-let rec count_padding_aux = function
-| [] -> (O, true)
+(** val mm_tail : z -> z list -> z -> z **)
+
+let mm_tail t data2 h =
+  fold_left (tail_case t data2) murmur_tail_cases h
+
+(** val murmur64a_mem : z list -> z -> z -> z **)
+
+let murmur64a_mem mem len seed =
+  let h0 = Z.coq_lxor seed (mul64 len murmur_m) in
+  let (h1, data) = mm_body (Z.to_nat (Z.div len murmur_block)) mem h0 in
+  let h2 = mm_tail (Z.coq_land len murmur_tail_mask) data h1 in
+  let h3 = Z.coq_lxor h2 (Z.shiftr h2 murmur_r) in
+  let h4 = mul64 h3 murmur_m in Z.coq_lxor h4 (Z.shiftr h4 murmur_r)
+
+(** val murmur64a : z list -> z -> z **)
+
+let murmur64a bs seed =
+  murmur64a_mem bs (Z.of_nat (length bs)) seed
+
+(** val murmur_native : z list -> z -> z **)
+
+let murmur_native =
+  murmur64a
+
+(** val hash_fold : z -> z list list -> z **)
+
+let hash_fold seed pieces =
+  fold_left (fun h p -> murmur_native p h) pieces seed
+
+(** val dedupe_line_key : z list -> z **)
+
+let dedupe_line_key line =
+  murmur_native line dedupe_line_seed
+
+type range = z * z
+
+(** val is_digit : z -> bool **)
+
+let is_digit c =
+  (&&) (Z.leb (Zpos (XO (XO (XO (XO (XI XH)))))) c)
+    (Z.leb c (Zpos (XI (XO (XO (XI (XI XH)))))))
+
+(** val digits_value : z -> z list -> z * z list **)
+
+let rec digits_value acc s = match s with
+| [] -> (acc, [])
 | c :: r ->
-  let (n0, all) = count_padding_aux r in
-  if (&&) all (Z.eqb c (Zpos (XI (XO (XI (XI (XI XH)))))))
-  then ((S n0), true)
-  else (n0, false)
+  if is_digit c
+  then digits_value
+         (Z.add (Z.mul acc (Zpos (XO (XI (XO XH)))))
+           (Z.sub c (Zpos (XO (XO (XO (XO (XI XH)))))))) r
+  else (acc, s)
 
-(** val count_padding : z list -> nat **)
+type perr =
+| PNotNumber
+| POutOfRange
+| PEmptyRange
+| PBadSeparator
+| PEmptyList
+| PTrailingComma
+| PFuel
 
-let count_padding cs =
-  fst (count_padding_aux cs)
+type 'a pres =
+| POk of 'a
+| PErr of perr
 
-(** val dec_loop : z list -> z -> z -> dres **)
+(** val consume_int : z list -> (z * z list) pres **)
 
-let rec dec_loop cs val0 valb =
-  match cs with
-  | [] -> DOk []
-  | c :: r ->
-    if Z.eqb c dec_pad_char
-    then DOk []
-    else if Z.eqb (inv c) dec_reject
-         then DBadChar c
-         else let val' =
-                wrap32
-                  (Z.add (Z.mul val0 (Z.pow (Zpos (XO XH)) dec_shift))
-                    (inv c))
-              in
-              let valb' = Z.add valb dec_valb_add in
-              if Z.geb valb' dec_out_bound
-              then (match dec_loop r val' (Z.sub valb' dec_valb_sub) with
-                    | DOk o -> DOk ((sel val' valb' dec_mask) :: o)
-                    | x -> x)
-              else dec_loop r val' valb'
+let consume_int s = match s with
+| [] -> PErr PNotNumber
+| c :: _ ->
+  if is_digit c
+  then let (v, rest) = digits_value Z0 s in
+       let ret = Z.min v ulong_max in
+       if (||) (Z.eqb ret Z0) (Z.leb kInfiniteEnd ret)
+       then PErr POutOfRange
+       else POk (ret, rest)
+  else PErr PNotNumber
 
-(** val base64_decode : z list -> dres **)
+(** val comma : z **)
 
-let base64_decode cs =
-  if Z.ltb
-       (Z.div (Z.mul (Z.of_nat (length cs)) (Zpos (XI XH))) (Zpos (XO (XO
-         XH)))) (Z.of_nat (count_padding cs))
-  then DLengthError
-  else dec_loop cs dec_val0 dec_valb0
+let comma =
+  Zpos (XO (XO (XI (XI (XO XH)))))
 
-(** val b64_alphabet : z list **)
+(** val dash : z **)
 
-let b64_alphabet =
-  map Z.of_nat
-    (app
-      (seq (S (S (S (S (S (S (S (S (S (S (S (S (S (S (S (S (S (S (S (S (S (S
-        (S (S (S (S (S (S (S (S (S (S (S (S (S (S (S (S (S (S (S (S (S (S (S
-        (S (S (S (S (S (S (S (S (S (S (S (S (S (S (S (S (S (S (S (S
-        O))))))))))))))))))))))))))))))))))))))))))))))))))))))))))))))))) (S
-        (S (S (S (S (S (S (S (S (S (S (S (S (S (S (S (S (S (S (S (S (S (S (S
-        (S (S O)))))))))))))))))))))))))))
-      (app
-        (seq (S (S (S (S (S (S (S (S (S (S (S (S (S (S (S (S (S (S (S (S (S
-          (S (S (S (S (S (S (S (S (S (S (S (S (S (S (S (S (S (S (S (S (S (S
-          (S (S (S (S (S (S (S (S (S (S (S (S (S (S (S (S (S (S (S (S (S (S
-          (S (S (S (S (S (S (S (S (S (S (S (S (S (S (S (S (S (S (S (S (S (S
-          (S (S (S (S (S (S (S (S (S (S
-          O)))))))))))))))))))))))))))))))))))))))))))))))))))))))))))))))))))))))))))))))))))))))))))))))))
-          (S (S (S (S (S (S (S (S (S (S (S (S (S (S (S (S (S (S (S (S (S (S
-          (S (S (S (S O)))))))))))))))))))))))))))
-        (app
-          (seq (S (S (S (S (S (S (S (S (S (S (S (S (S (S (S (S (S (S (S (S (S
-            (S (S (S (S (S (S (S (S (S (S (S (S (S (S (S (S (S (S (S (S (S (S
-            (S (S (S (S (S O))))))))))))))))))))))))))))))))))))))))))))))))
-            (S (S (S (S (S (S (S (S (S (S O))))))))))) ((S (S (S (S (S (S (S
-          (S (S (S (S (S (S (S (S (S (S (S (S (S (S (S (S (S (S (S (S (S (S
-          (S (S (S (S (S (S (S (S (S (S (S (S (S (S
-          O))))))))))))))))))))))))))))))))))))))))))) :: ((S (S (S (S (S (S
-          (S (S (S (S (S (S (S (S (S (S (S (S (S (S (S (S (S (S (S (S (S (S
-          (S (S (S (S (S (S (S (S (S (S (S (S (S (S (S (S (S (S (S
-          O))))))))))))))))))))))))))))))))))))))))))))))) :: [])))))
+let dash =
+  Zpos (XI (XO (XI (XI (XO XH)))))
 
-(** val alpha : z -> z **)
+(** val head0 : z list -> z **)
 
-let alpha i =
-  nth (Z.to_nat i) b64_alphabet Z0
+let head0 = function
+| [] -> Z0
+| c :: _ -> c
 
-(** val rfc4648 : z list -> z list **)
+(** val parse_one : z list -> (range * z list) pres **)
 
-let rec rfc4648 = function
-| [] -> []
-| b0 :: l ->
-  (match l with
-   | [] ->
-     (alpha (Z.div b0 (Zpos (XO (XO XH))))) :: ((alpha
-                                                  (Z.mul
-                                                    (Z.modulo b0 (Zpos (XO
-                                                      (XO XH)))) (Zpos (XO
-                                                    (XO (XO (XO XH))))))) :: ((Zpos
-       (XI (XO (XI (XI (XI XH)))))) :: ((Zpos (XI (XO (XI (XI (XI
-       XH)))))) :: [])))
-   | b1 :: l0 ->
-     (match l0 with
-      | [] ->
-        (alpha (Z.div b0 (Zpos (XO (XO XH))))) :: ((alpha
-                                                     (Z.add
-                                                       (Z.mul
-                                                         (Z.modulo b0 (Zpos
-                                                           (XO (XO XH))))
-                                                         (Zpos (XO (XO (XO
-                                                         (XO XH))))))
-                                                       (Z.div b1 (Zpos (XO
-                                                         (XO (XO (XO XH)))))))) :: (
-          (alpha
-            (Z.mul (Z.modulo b1 (Zpos (XO (XO (XO (XO XH)))))) (Zpos (XO (XO
-              XH))))) :: ((Zpos (XI (XO (XI (XI (XI XH)))))) :: [])))
-      | b2 :: r ->
-        app
-          ((alpha (Z.div b0 (Zpos (XO (XO XH))))) :: ((alpha
-                                                        (Z.add
-                                                          (Z.mul
-                                                            (Z.modulo b0
-                                                              (Zpos (XO (XO
-                                                              XH)))) (Zpos
-                                                            (XO (XO (XO (XO
-                                                            XH))))))
-                                                          (Z.div b1 (Zpos (XO
-                                                            (XO (XO (XO
-                                                            XH)))))))) :: (
-          (alpha
-            (Z.add
-              (Z.mul (Z.modulo b1 (Zpos (XO (XO (XO (XO XH)))))) (Zpos (XO
-                (XO XH)))) (Z.div b2 (Zpos (XO (XO (XO (XO (XO (XO XH)))))))))) :: (
-          (alpha (Z.modulo b2 (Zpos (XO (XO (XO (XO (XO (XO XH))))))))) :: []))))
-          (rfc4648 r)))
+let parse_one s =
+  if Z.eqb (head0 s) dash
+  then let a = (Z0, s) in
+       let (b, s1) = a in
+       (match if (||) (Z.eqb (head0 s1) comma) (Z.eqb (head0 s1) Z0)
+              then POk ((Z.add b (Zpos XH)), s1)
+              else if Z.eqb (head0 s1) dash
+                   then let s2 = tl s1 in
+                        if (||) (Z.eqb (head0 s2) Z0) (Z.eqb (head0 s2) comma)
+                        then POk (kInfiniteEnd, s2)
+                        else (match consume_int s2 with
+                              | POk a0 ->
+                                let (e, s3) = a0 in
+                                if Z.leb e b
+                                then PErr PEmptyRange
+                                else POk (e, s3)
+                              | PErr er -> PErr er)
+                   else PErr PBadSeparator with
+        | POk a0 ->
+          let (e, s2) = a0 in
+          if (&&) (negb (Z.eqb (head0 s2) Z0)) (negb (Z.eqb (head0 s2) comma))
+          then PErr PBadSeparator
+          else if Z.eqb (head0 s2) comma
+               then if Z.eqb (head0 (tl s2)) Z0
+                    then PErr PTrailingComma
+                    else POk ((b, e), (tl s2))
+               else POk ((b, e), s2)
+        | PErr e -> PErr e)
+  else (match consume_int s with
+        | POk a ->
+          let (v, r) = a in
+          let a0 = ((Z.sub v (Zpos XH)), r) in
+          let (b, s1) = a0 in
+          (match if (||) (Z.eqb (head0 s1) comma) (Z.eqb (head0 s1) Z0)
+                 then POk ((Z.add b (Zpos XH)), s1)
+                 else if Z.eqb (head0 s1) dash
+                      then let s2 = tl s1 in
+                           if (||) (Z.eqb (head0 s2) Z0)
+                                (Z.eqb (head0 s2) comma)
+                           then POk (kInfiniteEnd, s2)
+                           else (match consume_int s2 with
+                                 | POk a1 ->
+                                   let (e, s3) = a1 in
+                                   if Z.leb e b
+                                   then PErr PEmptyRange
+                                   else POk (e, s3)
+                                 | PErr er -> PErr er)
+                      else PErr PBadSeparator with
+           | POk a1 ->
+             let (e, s2) = a1 in
+             if (&&) (negb (Z.eqb (head0 s2) Z0))
+                  (negb (Z.eqb (head0 s2) comma))
+             then PErr PBadSeparator
+             else if Z.eqb (head0 s2) comma
+                  then if Z.eqb (head0 (tl s2)) Z0
+                       then PErr PTrailingComma
+                       else POk ((b, e), (tl s2))
+                  else POk ((b, e), s2)
+           | PErr e -> PErr e)
+        | PErr e -> PErr e)
 
-(** val strip_padding : z list -> z list **)
+(** val parse_loop : nat -> z list -> range list pres **)
 
-let strip_padding cs =
-  firstn (sub (length cs) (count_padding cs)) cs
+let rec parse_loop fuel s =
+  if Z.eqb (head0 s) Z0
+  then POk []
+  else (match fuel with
+        | O -> PErr PFuel
+        | S f ->
+          (match parse_one s with
+           | POk a ->
+             let (r, s') = a in
+             (match parse_loop f s' with
+              | POk rs -> POk (r :: rs)
+              | PErr e -> PErr e)
+           | PErr e -> PErr e))
 
-(** val split_at : z -> z list -> z list -> z list list * z list **)
+(** val parse_fields : z list -> range list pres **)
 
-let rec split_at d bs cur =
-  match bs with
-  | [] -> ([], (rev cur))
-  | b :: r ->
-    if Z.eqb b d
-    then let (rs, t) = split_at d r [] in (((rev cur) :: rs), t)
-    else split_at d r (b :: cur)
+let parse_fields s =
+  if Z.eqb (head0 s) Z0 then PErr PEmptyList else parse_loop (length s) s
 
-(** val strip_cr : z list -> z list **)
+(** val insert_range : range -> range list -> range list **)
 
-let strip_cr l =
-  match rev l with
-  | [] -> l
-  | z0 :: r ->
+let rec insert_range r l = match l with
+| [] -> r :: []
+| x :: t -> if Z.ltb (fst r) (fst x) then r :: l else x :: (insert_range r t)
+
+(** val sort_ranges : range list -> range list **)
+
+let sort_ranges l =
+  fold_right insert_range [] l
+
+(** val defrag_loop : range -> range list -> range list option **)
+
+let rec defrag_loop prev = function
+| [] -> Some (prev :: [])
+| r :: rest' ->
+  if Z.ltb (fst r) (snd prev)
+  then None
+  else if Z.eqb (snd prev) (fst r)
+       then defrag_loop ((fst prev), (snd r)) rest'
+       else (match defrag_loop r rest' with
+             | Some l -> Some (prev :: l)
+             | None -> None)
+
+(** val defragment : range list -> range list option **)
+
+let defragment l =
+  match sort_ranges l with
+  | [] -> Some []
+  | r :: rest -> defrag_loop r rest
+
+(** val parse_key_spec : z list -> range list option **)
+
+let parse_key_spec s =
+  match parse_fields s with
+  | POk rs -> defragment rs
+  | PErr _ -> None
+
+(** val find_delim : z -> z list -> z list * z list option **)
+
+let rec find_delim d = function
+| [] -> ([], None)
+| c :: r ->
+  if Z.eqb c d
+  then ([], (Some r))
+  else let (f, x) = find_delim d r in ((c :: f), x)
+
+type skipres =
+| SkipAt of z * z list
+| SkipReturn
+| SkipFuel
+
+(** val skip_fields : nat -> z -> z -> z -> z list -> skipres **)
+
+let rec skip_fields fuel d index fbegin s =
+  if Z.ltb index fbegin
+  then (match fuel with
+        | O -> SkipFuel
+        | S f ->
+          let (_, o) = find_delim d s in
+          (match o with
+           | Some r -> skip_fields f d (Z.add index (Zpos XH)) fbegin r
+           | None -> SkipReturn))
+  else SkipAt (index, s)
+
+type takeres =
+| TakeEnd of z list
+| TakeUpTo of z * z list * z list
+| TakeBadLength
+| TakeFuel
+
+(** val take_fields : nat -> z -> z -> z -> z list -> z list -> takeres **)
+
+let rec take_fields fuel d index fend s acc =
+  if Z.ltb index fend
+  then (match fuel with
+        | O -> TakeFuel
+        | S f ->
+          let (fld, o) = find_delim d s in
+          (match o with
+           | Some r ->
+             take_fields f d (Z.add index (Zpos XH)) fend r
+               (app acc (app fld (d :: [])))
+           | None -> TakeEnd (app acc fld)))
+  else (match acc with
+        | [] -> TakeBadLength
+        | _ :: _ -> TakeUpTo (index, s, (removelast acc)))
+
+type rres =
+| ROk of z list list
+| RBadLength
+| RFuel
+
+(** val rcons : z list -> rres -> rres **)
+
+let rcons p r = match r with
+| ROk l -> ROk (p :: l)
+| _ -> r
+
+(** val range_fields_loop : nat -> z -> range list -> z -> z list -> rres **)
+
+let rec range_fields_loop fuel d ranges index s =
+  match ranges with
+  | [] -> ROk []
+  | r :: rest ->
+    let (fb, fe) = r in
+    (match skip_fields fuel d index fb s with
+     | SkipAt (index1, s1) ->
+       if Z.eqb fe kInfiniteEnd
+       then ROk (s1 :: [])
+       else (match take_fields fuel d index1 fe s1 [] with
+             | TakeEnd p -> ROk (p :: [])
+             | TakeUpTo (index2, s2, p) ->
+               rcons p (range_fields_loop fuel d rest index2 s2)
+             | TakeBadLength -> RBadLength
+             | TakeFuel -> RFuel)
+     | SkipReturn -> ROk []
+     | SkipFuel -> RFuel)
+
+(** val range_fields : z list -> range list -> z -> rres **)
+
+let range_fields line ranges d =
+  range_fields_loop (S (length line)) d ranges Z0 line
+
+type ires =
+| IOk of z list list
+| IFuel
+
+type eachres =
+| EachEnd of z list list
+| EachUpTo of z * z list * z list list
+| EachFuel
+
+(** val each_field : nat -> z -> z -> z -> z list -> eachres **)
+
+let rec each_field fuel d index fend s =
+  if Z.ltb index fend
+  then (match fuel with
+        | O -> EachFuel
+        | S f ->
+          let (fld, o) = find_delim d s in
+          (match o with
+           | Some r ->
+             (match each_field f d (Z.add index (Zpos XH)) fend r with
+              | EachEnd ps -> EachEnd (fld :: ps)
+              | EachUpTo (i, s', ps) -> EachUpTo (i, s', (fld :: ps))
+              | EachFuel -> EachFuel)
+           | None -> EachEnd (fld :: [])))
+  else EachUpTo (index, s, [])
+
+(** val individual_fields_loop :
+    nat -> z -> range list -> z -> z list -> ires **)
+
+let rec individual_fields_loop fuel d ranges index s =
+  match ranges with
+  | [] -> IOk []
+  | r :: rest ->
+    let (fb, fe) = r in
+    (match skip_fields fuel d index fb s with
+     | SkipAt (index1, s1) ->
+       (match each_field fuel d index1 fe s1 with
+        | EachEnd ps -> IOk ps
+        | EachUpTo (index2, s2, ps) ->
+          (match individual_fields_loop fuel d rest index2 s2 with
+           | IOk l -> IOk (app ps l)
+           | IFuel -> IFuel)
+        | EachFuel -> IFuel)
+     | SkipReturn -> IOk []
+     | SkipFuel -> IFuel)
+
+(** val individual_fields : z list -> range list -> z -> ires **)
+
+let individual_fields line ranges d =
+  individual_fields_loop (S (length line)) d ranges Z0 line
+
+(** val key_of : z -> z list -> range list -> z -> z option **)
+
+let key_of seed line ranges d =
+  match range_fields line ranges d with
+  | ROk pieces -> Some (hash_fold seed pieces)
+  | _ -> None
+
+(** val shard_key : z list -> range list -> z -> z option **)
+
+let shard_key line ranges d =
+  key_of shard_seed line ranges d
+
+(** val dedupe_key : z list -> range list -> z -> z option **)
+
+let dedupe_key line ranges d =
+  match ranges with
+  | [] -> key_of dedupe_field_seed line ranges d
+  | r :: l ->
+    let (z0, e) = r in
     (match z0 with
-     | Zpos p ->
-       (match p with
-        | XI p0 ->
-          (match p0 with
-           | XO p1 ->
-             (match p1 with
-              | XI p2 -> (match p2 with
-                          | XH -> rev r
-                          | _ -> l)
-              | _ -> l)
-           | _ -> l)
-        | _ -> l)
-     | _ -> l)
+     | Z0 ->
+       (match l with
+        | [] ->
+          if Z.eqb e kInfiniteEnd
+          then Some (dedupe_line_key line)
+          else key_of dedupe_field_seed line ranges d
+        | _ :: _ -> key_of dedupe_field_seed line ranges d)
+     | _ -> key_of dedupe_field_seed line ranges d)
 
-(** val records : z -> bool -> z list -> z list list **)
+(** val cache_key_of : z list -> range list -> z -> z option **)
 
-let records d cr bs =
-  let (rs, t) = split_at d bs [] in
-  app (map (if cr then strip_cr else (fun x -> x)) rs)
-    (match t with
-     | [] -> []
-     | _ :: _ -> t :: [])
+let cache_key_of line ranges d =
+  key_of cache_seed line ranges d
 
-(** val docenc_encode_strip_cr : bool **)
+(** val split_fields : z -> z list -> z list list **)
 
-let docenc_encode_strip_cr =
-  false
+let rec split_fields d = function
+| [] -> [] :: []
+| c :: r ->
+  if Z.eqb c d
+  then [] :: (split_fields d r)
+  else (match split_fields d r with
+        | [] -> (c :: []) :: []
+        | f :: fs -> (c :: f) :: fs)
 
-(** val docenc_decode_strip_cr : bool **)
+(** val join_fields : z -> z list list -> z list **)
 
-let docenc_decode_strip_cr =
-  true
+let rec join_fields d = function
+| [] -> []
+| f :: rest ->
+  (match rest with
+   | [] -> f
+   | _ :: _ -> app f (d :: (join_fields d rest)))
 
-(** val docenc_indices_unique : bool **)
+(** val select_from : z list list -> z -> range -> z list list **)
 
-let docenc_indices_unique =
-  true
+let select_from fs off r =
+  let rest = skipn (Z.to_nat (Z.sub (fst r) off)) fs in
+  if Z.eqb (snd r) kInfiniteEnd
+  then rest
+  else firstn (Z.to_nat (Z.sub (snd r) (fst r))) rest
 
-(** val docenc_rejects_index_zero : bool **)
+(** val select_range : z list list -> range -> z list list **)
 
-let docenc_rejects_index_zero =
-  true
+let select_range fs r =
+  select_from fs Z0 r
 
-type tres =
-| TOk of z list
-| TAbort
-| TFuel
-| TUsage
+(** val select : z list list -> range list -> z list list list **)
 
-(** val insert_sorted : nat -> nat list -> nat list **)
+let select fs rs =
+  map (select_range fs) rs
 
-let rec insert_sorted x l = match l with
-| [] -> x :: []
-| y :: r -> if Nat.leb x y then x :: l else y :: (insert_sorted x r)
+(** val spec_pieces : z -> z list -> range list -> z list list **)
 
-(** val sort_nat : nat list -> nat list **)
+let spec_pieces d line rs =
+  map (join_fields d)
+    (filter (fun sel -> match sel with
+                        | [] -> false
+                        | _ :: _ -> true) (select (split_fields d line) rs))
 
-let sort_nat l =
-  fold_right insert_sorted [] l
+(** val spec_individual : z -> z list -> range list -> z list list **)
 
-(** val uniq_adjacent : nat list -> nat list **)
+let spec_individual d line rs =
+  concat (select (split_fields d line) rs)
 
-let rec uniq_adjacent l = match l with
-| [] -> l
-| x :: r ->
-  (match r with
-   | [] -> l
-   | y :: _ -> if Nat.eqb x y then uniq_adjacent r else x :: (uniq_adjacent r))
+(** val contains_allb : z -> range list -> bool **)
 
-(** val norm_indices : nat list -> nat list **)
-
-let norm_indices l =
-  if docenc_indices_unique then uniq_adjacent (sort_nat l) else sort_nat l
-
-(** val is_nil : 'a1 list -> bool **)
-
-let is_nil = function
-| [] -> true
-| _ :: _ -> false
-
-(** val dec_docs : bool -> z -> z list list -> nat -> nat list -> tres **)
-
-let rec dec_docs use_idx delim lines i rem =
-  match lines with
-  | [] -> TOk []
-  | l :: ls ->
-    let i' = S i in
-    let emit = fun rem' stop ->
-      match base64_decode l with
-      | DOk d ->
-        if stop
-        then TOk (app d (delim :: []))
-        else (match dec_docs use_idx delim ls i' rem' with
-              | TOk o -> TOk (app d (delim :: o))
-              | x -> x)
-      | _ -> TAbort
-    in
-    if use_idx
-    then (match rem with
-          | [] -> TOk []
-          | x :: rem' ->
-            if Nat.eqb x i'
-            then emit rem' (is_nil rem')
-            else dec_docs use_idx delim ls i' rem)
-    else emit rem false
-
-(** val decode_tool : z -> nat list -> z list -> tres **)
-
-let decode_tool delim indices input =
-  if (&&) docenc_rejects_index_zero (existsb (Nat.eqb O) indices)
-  then TUsage
-  else dec_docs (negb (is_nil indices)) delim
-         (records (Zpos (XO (XI (XO XH)))) docenc_decode_strip_cr input) O
-         (norm_indices indices)
-
-(** val take_doc :
-    bool -> z list list -> z list -> (z list * z list list) * bool **)
-
-let rec take_doc nl recs acc =
-  match recs with
-  | [] -> ((acc, []), true)
-  | l :: r ->
-    if nl
-    then if is_nil l
-         then ((acc, r), false)
-         else take_doc nl r (app acc (app l ((Zpos (XO (XI (XO XH)))) :: [])))
-    else (((app acc l), r), false)
-
-(** val enc_docs :
-    nat -> bool -> bool -> z list list -> nat -> nat list -> tres **)
-
-let rec enc_docs fuel nl use_idx recs i rem =
-  match fuel with
-  | O -> TFuel
-  | S f ->
-    let (p, eof) = take_doc nl recs [] in
-    let (doc, rest) = p in
-    if (&&) eof (is_nil doc)
-    then TOk []
-    else let i' = S i in
-         let emit = fun rem' stop ->
-           match base64_encode doc with
-           | Some e ->
-             if stop
-             then TOk (app e ((Zpos (XO (XI (XO XH)))) :: []))
-             else (match enc_docs f nl use_idx rest i' rem' with
-                   | TOk o -> TOk (app e ((Zpos (XO (XI (XO XH)))) :: o))
-                   | x -> x)
-           | None -> TFuel
-         in
-         if use_idx
-         then (match rem with
-               | [] -> TOk []
-               | x :: rem' ->
-                 if Nat.eqb x i'
-                 then emit rem' ((||) eof (is_nil rem'))
-                 else if eof
-                      then TOk []
-                      else enc_docs f nl use_idx rest i' rem)
-         else emit rem eof
-
-(** val encode_tool : z -> nat list -> z list -> tres **)
-
-let encode_tool delim indices input =
-  if (&&) docenc_rejects_index_zero (existsb (Nat.eqb O) indices)
-  then TUsage
-  else let recs = records delim docenc_encode_strip_cr input in
-       enc_docs (S (length recs)) (Z.eqb delim (Zpos (XO (XI (XO XH)))))
-         (negb (is_nil indices)) recs O (norm_indices indices)
+let contains_allb nfields rs =
+  forallb (fun r ->
+    if Z.eqb (snd r) kInfiniteEnd
+    then Z.ltb (fst r) nfields
+    else Z.leb (snd r) nfields) rs
